@@ -7,6 +7,7 @@ use turdb::storage::MmapStorage;
 use tvh::*;
 pub mod hist;
 pub mod gen;
+pub mod pages;
 
 pub struct Real {
     pub path: PathBuf,
